@@ -38,3 +38,24 @@ check(
                  "against the O(n) definition on 32 bins per use",
                  "lengths above 2^17 and inputs outside the listed classes are not observed"],
 )
+
+check(
+    "C02",
+    runs=[dict(harness="C02_inverse", flavour="plain")],
+    rule=("ifft/IfftPlan for every n (quick: n<=512 + a residue class of ..2048; thorough: all n<=2048) against the long-double inverse "
+          "DFT and as round trip; irfft/IfftPlanR for every even n in both input forms (full spectrum, first n/2+1 bins) against the real "
+          "signal whose exact DFT was supplied, odd n must throw; stft->istft for every (window of 11 kinds, overlap, nfft, range, method) "
+          "accepted by iscola, on signals whose length is not hop aligned, judged per sample where the accumulated window weight is "
+          "non-zero, and all samples must be finite; iscola cross-checked against a long-double overlap sum. distinct = hash of "
+          "(entry point, configuration, input bits)."),
+    exhaustive_subspaces={"quick": ["ifft/irfft: all n<=512", "stft: all overlaps 0..nwin-1 for nwin<=64 x 11 windows x 2 methods x 3 ranges"],
+                          "thorough": ["ifft: all n<=2048; irfft: all even n<=2048, all odd n rejected", "stft: all overlaps 0..nwin-1 for nwin<=64 x 11 windows x 2 methods x 3 ranges"]},
+    min_distinct={"quick": 5000, "thorough": 20000},
+    min_obs={"quick": {"cola_pairs_accepted": 100, "odd_rejections_seen": 500}, "thorough": {"cola_pairs_accepted": 100, "odd_rejections_seen": 2000}},
+    technique="runtime monitor: long-double inverse-DFT oracle, exception monitor for odd n, per-sample reconstruction oracle with harness-computed window weights",
+    level_text=("Every inverse-transform entry point is executed for every length in the stated ranges and compared with an "
+                "extended-precision reference; every iscola-accepted STFT configuration of the grid is round-tripped and judged sample "
+                "by sample. Held on the executions counted in the evidence."),
+    level_note="trusted: long double reference DFT; the harness's own computation of the overlap-add weight; gcc/libm",
+    assumptions=["STFT grid limited to the listed nfft/window kinds; kaiser periodic variant emulated as the first n points of kaiser(n+1)"],
+)
